@@ -1,9 +1,11 @@
 //! Shared model code of the verification harness for varlink/rust.
 pub mod classify;
 pub mod ctx;
+pub mod fuzz;
 pub mod idl;
 pub mod isolate;
 pub mod jsongen;
+pub mod oracles;
 pub mod pt;
 pub mod sock;
 pub mod svc;
